@@ -465,3 +465,22 @@ Definition items_keys_exact (its : list aitem) : bool :=
   forallb (fun it => match item_const it with Some c => const_exact c | None => true end) its.
 
 Definition code_keys_exact (C : code) : bool := items_keys_exact (items_of_code C).
+
+(* ------------------------------------------------------------------ example inputs (used in Props/C05.v) *)
+(* s matches "^a" ? f(1.5, 1, f(1.5, 2, 1)) : filter(1..3, {# > 1}) *)
+Definition c05_ex : expr :=
+  ECond (at_loc (1, 30))
+    (EMatches (at_loc (1, 3)) (Some "^a"%string) (EIdent (at_loc (1, 1)) "s" false) (EStr (at_loc (1, 11)) "^a"))
+    (EFunction (at_loc (1, 20)) "f"
+       [EFloat ann0 1.5%float; EInt ann0 1; EFunction ann0 "f" [EFloat ann0 1.5%float; EInt ann0 2; EInt ann0 1] false] false)
+    (EBuiltin (at_loc (1, 40)) BiFilter
+       [EBinary ann0 BRange (EInt ann0 1) (EInt ann0 3); EClosure ann0 (EBinary ann0 BGt (EPointer ann0) (EInt ann0 1))]).
+
+(* Program.Constants of the Go compiler for it *)
+Definition c05_ex_pool : list const :=
+  [CVal (VStr "s"); CRegex "^a"; CVal (VNum (NFlt KF64 1.5%float)); CVal (vint 1); CVal (vint 2); CCall "f" 3;
+   CVal (VStr "count"); CVal (vint 3); CVal (vint 0); CVal (VStr "i"); CVal (VStr "size"); CVal (VStr "array")].
+
+(* true ? [1, 1, ... n times] : 2 *)
+Definition c05_big_cond (n : Z) : expr :=
+  ECond ann0 (EBool ann0 true) (EArray ann0 (repeat (EInt ann0 1) (Z.to_nat n))) (EInt ann0 2).
